@@ -184,7 +184,18 @@ func checkC09(c *Ctx) {
 			c.Sample(map[string]interface{}{"source": src, "output": res.Out})
 		}
 	}
+	// the same texts through the real binary (stdout and -o), incl. contents that a careless
+	// output routine would mangle
+	var cli []CLICase
+	for i, txt := range []string{"Everything is 50% off today!", "Save 20%$", "100%s sure %d %v %%", "tab\\there", "a\\nb %"} {
+		src := fmt.Sprintf("script S%d {\n    msgbox(\"%s\")\n    rawcmd(%d %% 3)\n}\ntext T%d {\n    ascii\"%s\"\n}\nraw `@ 5%% raw`\n", i, txt, i, i, txt)
+		for k := 0; k < 4; k++ {
+			cli = append(cli, CLICase{ID: fmt.Sprintf("cli%d.%d", i, k), Src: src, Opts: Opts{Optimize: true}, Stdin: k%2 == 0, ToFile: k >= 2})
+		}
+	}
+	cliStates := cliCheck(c, cli, "text emission")
 	bad, states, ok := runPairCases(c, "TextEmit", "texts.ndjson", recs)
+	states += cliStates
 	if !ok {
 		return
 	}
